@@ -714,12 +714,17 @@ def iter1(ctx) -> List[Ob]:
             if d.stmt is not None and isinstance(d.stmt, (ast.Assign, ast.AnnAssign)):
                 ap = d.stmt.value
             if ap is not None and not any(a is w for a in A.ancestors(d.stmt)):
-                seeds.append(A.unparse(ap))
-                # a seed kept in a local first (`head = self.find_head()` / `head = "0"` in the fallback arm)
-                for nm_ in [x for x in ast.walk(ap) if isinstance(x, ast.Name)]:
+                # a seed kept in a local first (`head = self.find_head()` / `head = "0"` in the fallback arm;
+                # `start = head if head else self.scfg.find_head()` written as an if / else)
+                inner = []
+                data_names = [x for x in ast.walk(ap) if isinstance(x, ast.Name) and x.id not in ("deque", "list", "set")]
+                for nm_ in data_names:
                     for d2 in cfg.reaching_defs(d.stmt, nm_.id):
                         if d2.stmt is not None and isinstance(d2.stmt, (ast.Assign, ast.AnnAssign)) and d2.stmt.value is not None:
-                            seeds.append(A.unparse(d2.stmt.value).replace("'0'", "['0']") if isinstance(d2.stmt.value, ast.Constant) else A.unparse(d2.stmt.value))
+                            inner.append(A.unparse(d2.stmt.value).replace("'0'", "['0']") if isinstance(d2.stmt.value, ast.Constant) else A.unparse(d2.stmt.value))
+                if not (inner and len(data_names) == 1 and isinstance(ap, ast.Call)):
+                    seeds.append(A.unparse(ap))
+                seeds += inner
         # a constant start name is only a fallback: it may be bound in an `except` handler (find_head failed),
         # never chosen by a test on the graph
         const_seed_defs = []
@@ -807,6 +812,12 @@ def iter1(ctx) -> List[Ob]:
                 dv = [d.stmt.value for d in cfg.reaching_defs(c, a0.id) if d.stmt is not None and isinstance(d.stmt, ast.Assign)]
                 if dv and len(dv) == len(cfg.reaching_defs(c, a0.id)):
                     ext_args += [A.unparse(v) for v in dv]
+                    continue
+            if isinstance(a0, ast.Attribute) and isinstance(a0.value, ast.Name) and a0.attr in ("jump_targets", "_jump_targets"):
+                # .. or of the block whose targets are pushed: `last = block.subregion[block.exiting]` | `last = block`
+                dv = [d.stmt.value for d in cfg.reaching_defs(c, a0.value.id) if d.stmt is not None and isinstance(d.stmt, ast.Assign)]
+                if len(dv) >= 2 and len(dv) == len(cfg.reaching_defs(c, a0.value.id)):
+                    ext_args += [A.unparse(v) + "." + a0.attr for v in dv]
                     continue
             ext_args.append(A.unparse(a0))
         if concealed:
